@@ -326,6 +326,9 @@ theorem C17_mapblocks_total_partial (e : Bw.Expr) (out : CK) (h : Bw.keyFn e out
                   simpa using hm
               · cases h
 
+example : Bw.keyFn { outInd := [0], args := [⟨"a0", [0], [2]⟩, ⟨"a1", [1, 0], [1, 2]⟩] } ⟨"out", [0]⟩ = .malformed := by
+  rfl
+
 /-- … and fails: `map_blocks(f, a1d, b2d, drop_axis=0)` with `a1d` in two blocks and `b2d` in (1, 2) blocks passes
 every check, and the flattened key function then yields garbage keys (KeyError inside the task). -/
 theorem C17_mapblocks_total_fails : ¬ C17_mapblocks_total := by
@@ -344,6 +347,9 @@ def C17_legacy_fuse_total : Prop :=
 theorem C17_legacy_fuse_total_partial (k1 k2 : CK → FArgs CK) (out k : CK) (rest : List (Tree CK))
     (h : (k2 out).args = .leaf k :: rest) : fusePairKey k1 k2 out = some (k1 k) := by
   simp [fusePairKey, h]
+
+example : fusePairKey (fun k => ⟨k.name, [.leaf ⟨"x", k.coords⟩]⟩) (fun k => ⟨k.name, [.leaf ⟨"a", k.coords⟩]⟩) ⟨"out", [2]⟩
+    = some ⟨"a", [.leaf ⟨"x", [2]⟩]⟩ := by rfl
 
 /-- … and fails when the successor reads a stream (a one-task reduction over a one-block array has the same
 `num_tasks` as its elementwise predecessor): `.args[0]` is an iterator, and `pipeline1`'s key function fails on
@@ -395,6 +401,8 @@ example : expandOne (fun y => decide (y ≥ 2 * 2)) 2 7 7 = [2, 2, 3] := by deci
 `factor = prod(outshape[oleft+1 : oi+1])` after checking `prod(outshape[oleft : oi+1]) == din`. -/
 theorem C17_contract_tuple_divides (dleft cs din : Nat) (h : dleft * cs = din) : din % cs = 0 :=
   contract_divides dleft cs din h
+
+example : (12 : Nat) % 4 = 0 := C17_contract_tuple_divides 3 4 12 rfl
 
 /-- `consolidate_chunks` (`assert len(chunk_limits) == ndim`): the limits are `shape` itself or are built by a
 `zip` over two tuples already checked to have length `ndim`. -/
